@@ -955,6 +955,8 @@ class DocRunner:
                         if i in new: new.remove(i)
                     module = new[0].rsplit(":", 1)[0] if new else "?"
                 bad = judge(c["doc"], c["base"], after, a["name"], module, a["reason"])
+                if c.get("ifaces") is not None and module not in c["ifaces"] and module not in ("?", None):
+                    bad.append(f"the edit imports from module `{module}`, which does not exist in the workspace")
                 if a["kind"] == "qc" and module not in c["exporters"] and a["name"] == c["need"]:
                     bad.append(f"completion imports `{a['name']}` from `{module}` which does not export it")
                 a["after"] = after
@@ -1068,6 +1070,14 @@ def gen_mdiff_pair(rng):
     return render(oi, ot, width), render(ni_, nt_, width)
 
 
+def import_pairs(summary):
+    out = []
+    for imp in ([] if summary == "-" else summary.split(",")):
+        m, members = imp.rsplit(":", 1)
+        out += [(m, x) for x in members.split("+")]
+    return sorted(out)
+
+
 def md_splice(text, edits):
     fixed = []
     nlines = text.count("\n")
@@ -1114,7 +1124,10 @@ def check_mdiffs(ctx, runner, pairs, label, stats):
                 continue      # generator produced an invalid target; not a case
             elif pg.group(1) != "0":
                 bad = "edited text has syntax errors"
-            elif pg.group(2) != pw.group(2):
+            elif pg.group(2) != pw.group(2) and not (
+                    any(e[0][2] == FULL_DOC_END for e in st[2]) and import_pairs(pg.group(2)) == import_pairs(pw.group(2))):
+                # (a full-document edit is the *formatted* new module: the formatter merges and sorts the
+                # imports of one module, so there the (module, member) pairs are compared)
                 bad = f"imports of the edited text are {pg.group(2)}, expected {pw.group(2)}"
             elif pg.group(3) != pw.group(3):
                 bad = "toplevels of the edited text differ from the target module"
@@ -1329,6 +1342,158 @@ def report_deferred(ctx, runner, deferred, rng, stats):
 
 
 # ----------------------------------------------------------------------------------------------
+# part 5: deterministic families (seed-independent, every run) for code the random streams do not reach
+# ----------------------------------------------------------------------------------------------
+
+def blank_span(tb, a, b):
+    return tb[:a] + bytes(10 if ch == 10 else 32 for ch in tb[a:b]) + tb[b:]
+
+
+EXTRA_SAMPLE = """import { Foo } from A;
+import { Bar } from A;
+import { Qux } from lib.B;
+
+interface Shape { method area(): int /* after last member */ }
+
+class Pt(val a: int, val b: int) : Shape {
+  method area(): int = (this.a) < 3 && (-this.a) < 3 && (1 + this.a) < 3
+  method chain(): int = this.a - (this.b - 1) + (this.a * (this.b * 2)) + ((this.a * 2) + this.b)
+  method lam(): int = (((x: int) -> x + this.a)) < 3
+  function call(): int = Pt.init(1, /* trailing arg comment */ 2).area()
+  function empty(): unit = Process.println(/* only a comment */)
+  function block(): int = {
+    let v = 1;
+    v
+    /* ending comment after the final expression */
+  }
+  function block2(): unit = {
+    let w = 2;
+    // ending comment without final expression
+  }
+  /* comment before the closing brace of the class */
+}
+// trailing comment of the module
+"""
+
+
+def kind_family(runner, max_bytes=7000):
+    """Module pairs built from /repo's own sample programs (tests/*.sam, std/*.sam — every toplevel, member,
+    statement, expression and pattern kind of the language occurs in them): a toplevel deleted, inserted,
+    replaced (both directions, so that the real toplevel is the one that gets printed into the edit) and
+    two toplevels swapped, on comment-stripped texts (per-node path), plus one pair per file whose only
+    difference is a comment (give-up path: full-document edit).  Returns (plain_pairs, comment_pairs)."""
+    import glob
+    files = sorted(glob.glob(os.path.join(common.REPO, "tests", "*.sam")) + glob.glob(os.path.join(common.REPO, "std", "*.sam")))
+    texts = []
+    for f in files:
+        try:
+            t = open(f, encoding="utf-8").read()
+        except OSError:
+            continue
+        if len(t.encode()) <= max_bytes:
+            texts.append(t)
+    texts.append(EXTRA_SAMPLE)
+    plain = [strip_comments(t) for t in texts]
+    out = runner.harness([f"tlocs {hexs(t)}" for t in plain])
+    pairs, cpairs = [], []
+    for t, tc, ans in zip(plain, texts, out):
+        tb = t.encode(); starts = line_starts(tb)
+        if ans in ("skip", "-") or ans.startswith(("panic:", "<")):
+            continue
+        spans = []
+        for part in ans.split(","):
+            m = re.match(r"(\d+):(\d+)-(\d+):(\d+)=", part)
+            a = pos_to_off(tb, starts, int(m.group(1)), int(m.group(2))); b = pos_to_off(tb, starts, int(m.group(3)), int(m.group(4)))
+            if a is None or b is None:
+                spans = []; break
+            spans.append((a, b))
+        if not spans:
+            continue
+        for i in sorted({0, len(spans) // 2, len(spans) - 1}):
+            a, b = spans[i]
+            gone = blank_span(tb, a, b).decode()
+            pairs += [(t, gone), (gone, t)]
+            stub = b"class ZzStub {}"
+            if b - a >= len(stub):
+                st = (blank_span(tb, a, b)[:a] + stub + blank_span(tb, a, b)[a + len(stub):]).decode()
+                pairs += [(st, t), (t, st)]
+        if len(spans) >= 2:
+            (a1, b1), (a2, b2) = spans[0], spans[-1]
+            sw = (tb[:a1] + tb[a2:b2] + tb[b1:a2] + tb[a1:b1] + tb[b2:]).decode()
+            pairs += [(t, sw)]
+        k = min([x for x in (tc.find("//"), tc.find("/*")) if x >= 0], default=-1)
+        if k >= 0:
+            cpairs.append((tc, tc[:k + 2] + " edited" + tc[k + 2:]))
+    return pairs, cpairs
+
+
+def check_full_document_tie(ctx, runner, cpairs, label, stats):
+    lines = []
+    for a, b in cpairs:
+        lines += [f"mdiff {hexs(a)} {hexs(b)}", f"pmod {hexs(b)}"]
+    out = runner.harness(lines)
+    dl, keep = [], []
+    for i, (a, b) in enumerate(cpairs):
+        real, printed = out[2 * i], out[2 * i + 1]
+        if real == "skip" or printed == "skip" or printed.startswith(("panic:", "<")):
+            continue
+        dl.append(f"mfull {printed}"); keep.append((a, b, real))
+    if not dl:
+        return
+    rc, mo, err = common.run_exec(common.driver_bin(PROP), [], dl)
+    for (a, b, real), line, m in zip(keep, dl, mo + ["<missing>"] * len(dl)):
+        stats["tie_fulldoc"] = stats.get("tie_fulldoc", 0) + 1
+        if real == m:
+            stats["tie_fulldoc_ok"] = stats.get("tie_fulldoc_ok", 0) + 1
+        elif len(ctx.violations) < 3:
+            ctx.violation("model/implementation disagreement on protocol mfull (comment stores differ: full-document edit)",
+                          {"protocol": "mfull", "label": label, "old_text": a, "new_text": b, "impl": real[:400], "model": m[:400],
+                           "ops": [f"mdiff {hexs(a)} {hexs(b)}"],
+                           "broken": "correspondence `mfull` (moduleDiffEdits give-up path vs ast_differ.rs:367-371, 419-424)"}, no_input=True)
+
+
+MEMBER_DOC = """class Box(val content: int, val other: int) {
+  method get(): int = this.content
+  method twice(): int = this.get() + this.get()
+  function make(): Box = Box.init(1, 2)
+}
+class Main {
+  function main(): int = {
+    let someLocal = Box.make();
+    let anotherLocal = someLocal.get();
+    anotherLocal + someLocal.twice()
+  }
+}
+"""
+
+
+def member_completion_family(ctx, runner, stats):
+    """Completion arms other than class names (member access, local variables, lib.rs:643-688, 740-808):
+    their items must never carry additional edits."""
+    lines = ["new", f"src Doc {hexs(MEMBER_DOC)}", f"src A {hexs('class Foo { function bar(): int = 1 }' + chr(10))}", "init"]
+    qs = []
+    rows = MEMBER_DOC.split("\n")
+    for ln, row in enumerate(rows):
+        for m in re.finditer(r"\.(content|get|twice|make|init)|\b(someLocal|anotherLocal)\b", row):
+            qs.append(f"qc Doc {ln} {m.start() + (2 if m.group(1) else 1)}")
+    out = runner.harness(lines + qs)[len(lines):]
+    for q, ans in zip(qs, out):
+        stats["member_completions"] = stats.get("member_completions", 0) + 1
+        m = re.match(r"^n=(\d+) (\S+)(?: plain=(\S+))?$", ans)
+        if ans.startswith(("panic:", "<")) or not m:
+            ctx.violation("completion call failed on a member / local-variable position: " + ans[:80],
+                          {"protocol": "docs", "label": "member completion family", "ops": lines + [q], "doc": MEMBER_DOC, "need": "-", "exporters": []})
+        elif m.group(2) != "-" and "ToplevelName" not in ans:
+            # only class-name completions may carry edits; `Box` in `Box.make()` is one, members are not
+            labels = [unhex(it.split("|")[0]).decode() for it in m.group(2).split(";")]
+            if any(l in ("content", "get", "twice", "make", "init", "someLocal", "anotherLocal", "other") for l in labels):
+                ctx.violation("a member / local-variable completion item carries additional edits: " + ",".join(labels),
+                              {"protocol": "docs", "label": "member completion family", "ops": lines + [q], "doc": MEMBER_DOC, "need": "-", "exporters": []})
+        if m and int(m.group(1)) > 0:
+            stats["member_completions_nonempty"] = stats.get("member_completions_nonempty", 0) + 1
+
+
+# ----------------------------------------------------------------------------------------------
 # run
 # ----------------------------------------------------------------------------------------------
 
@@ -1401,6 +1566,18 @@ def run(ctx):
                 done += len(batches[-1])
             deferred = corpus_runner.deferred + run_doc_batches(ctx, batches, rng, stats, f"generated documents seed={ctx.seed}")
             report_deferred(ctx, runner, deferred, rng, stats)
+        # deterministic families
+        if not ctx.violations:
+            kp, kc = kind_family(runner)
+            stats["kind_family_pairs"] = len(kp); stats["kind_family_comment_pairs"] = len(kc)
+            for i in range(0, len(kp), 200):
+                check_mdiffs(ctx, runner, kp[i:i + 200], "deterministic kind family (tests/*.sam, std/*.sam)", stats)
+            if not ctx.violations:
+                for i in range(0, len(kp), 200):
+                    check_module_tie(ctx, runner, kp[i:i + 200], "deterministic kind family", stats)
+                check_mdiffs(ctx, runner, kc, "deterministic comment-difference family", stats)
+                check_full_document_tie(ctx, runner, kc, "deterministic comment-difference family", stats)
+                member_completion_family(ctx, runner, stats)
         # general module-diff oracle
         nmd = ctx.scale(1500, 30000)
         done = 0
@@ -1438,6 +1615,9 @@ def run(ctx):
         "module_diff_pairs_skipped_invalid": stats["md_skipped"], "module_diff_edit_kind_histogram": stats["md_kinds"],
         "module_diff_pairs_with_2plus_edits": len(stats["md_nontrivial"]),
         "traces_validated_against_impl": stats["diff_lines"] + stats["tie_import_ok"] + stats["tie_aimp_ok"] + stats.get("tie_module_ok", 0) + stats.get("tie_cdec_ok", 0),
+        "deterministic_kind_family_pairs": stats.get("kind_family_pairs", 0), "deterministic_comment_pairs": stats.get("kind_family_comment_pairs", 0),
+        "full_document_model_ties": stats.get("tie_fulldoc", 0), "full_document_model_ties_equal": stats.get("tie_fulldoc_ok", 0),
+        "member_completion_queries": stats.get("member_completions", 0), "member_completion_queries_with_items": stats.get("member_completions_nonempty", 0),
         "text_model_module_pairs": stats.get("tie_module_pairs", 0), "text_model_module_pairs_equal": stats.get("tie_module_ok", 0),
         "text_model_import_pairs": stats["tie_import_pairs"], "text_model_import_pairs_equal": stats["tie_import_ok"],
         "completion_edit_sets_checked": stats.get("completion_sets", 0), "completion_edit_sets_as_expected": stats.get("completion_sets_ok", 0),
